@@ -580,6 +580,9 @@ static inline double complex vs_get_v(vnacal_new_solve_state_t *vnssp)
 }
 
 /* _vnacal_new_get_parameter: add/find parameter and return held */
+extern int _vnacal_new_check_parameter(const char *function,
+	vnacal_new_t *vnp, int parameter);
+
 extern vnacal_new_parameter_t *_vnacal_new_get_parameter(
 	const char *function, vnacal_new_t *vnp, int parameter);
 
